@@ -56,7 +56,8 @@ try:
     meta["confirmed"] = bool(rc0 == 0 and meta["patch_applies"] and rc1 != 0 and rcb == 0)
     checks = {}
     VC = "/tmp/evalverif_%s" % name
-    sh("rm -rf %s && mkdir -p %s && cd %s && git ls-files -z | xargs -0 cp --parents -t %s && cp -r lean/.lake %s/lean/.lake"
+    # the COMMITTED machinery (git archive of HEAD, not the working tree: workers copy files back between commits)
+    sh("rm -rf %s && mkdir -p %s && cd %s && git archive HEAD | tar -x -C %s && cp -r lean/.lake %s/lean/.lake"
        % (VC, VC, V, VC, VC))
     for prop in [pid] + [a for a in sys.argv[3:]]:
         t0 = time.time()
